@@ -550,3 +550,98 @@ Example C14_verdict_recomputed_nonvacuous :
   run_sessions [replay_sess false ex_dir] no_faults [] ([] ++ [mkObj KView ex_n_us ex_n_us 0 true]) =
     (ORefused, [mkObj KView ex_n_us ex_n_us 0 true], no_faults, [], []).
 Proof. vm_compute. repeat split. Qed.
+
+(** ------------------------------------------------------------------------
+    Round 5 (goal 1): MySQL Driver.Snapshot / SchemaRestoreFunc /
+    RealmRestoreFunc and sqlx.DevDriver.NormalizeSchema / NormalizeRealm on a
+    server (Dev/DevServer.v): a list of schemas with tables, the schema the
+    connection is bound to, one fault bit per QueryContext/ExecContext call.
+    "Contains anything" ([holds_content]): a connection bound to an existing
+    schema owns that schema (any table in it); any other connection owns the
+    server (any schema at all). *)
+From Atlas Require Dev.DevServer Dev.DevServerProofs.
+
+(** refused (or Snapshot's own inspection fails), and then nothing is issued:
+    for every catalogue, scenario (script session, NormalizeSchema,
+    NormalizeRealm) and fault stream *)
+Theorem C14_refuse_untouched_mysql :
+  forall (sc : DevServer.scenario) (srv : DevServer.server) (fs : list bool),
+  DevServer.holds_content srv = true ->
+  let r := DevServer.run_scenario sc srv fs in
+  DevServer.r_trace r = [] /\ DevServer.r_srv r = srv /\ DevServer.r_ran r = false /\
+  (DevServer.r_out r = DevServer.SRefused \/ DevServer.r_out r = DevServer.SSnapErr).
+Proof.
+  intros sc srv fs H. apply DevServerProofs.declined_scenario. apply DevServerProofs.snapshot_declines. exact H.
+Qed.
+Print Assumptions C14_refuse_untouched_mysql.
+
+(** once Snapshot accepted, the RestoreFunc runs on every exit of every
+    scenario, whichever call fails *)
+Theorem C14_restore_always_runs_mysql :
+  forall (sc : DevServer.scenario) (srv : DevServer.server) (fs fs1 : list bool) (rk : DevServer.restore_kind),
+  DevServer.snapshot_my srv fs = (DevServer.SnapOk rk, fs1) ->
+  DevServer.r_ran (DevServer.run_scenario sc srv fs) = true.
+Proof. intros sc srv fs fs1 rk. exact (DevServerProofs.accepted_restore_runs sc srv fs rk fs1). Qed.
+Print Assumptions C14_restore_always_runs_mysql.
+
+(** a connection that is not bound to a schema (realm connection): accepted
+    means the server has no schema, and whatever the script / the desired
+    state creates -- schemas, tables in any schema -- and whichever statement
+    the server rejects, with no call failing for other reasons the server is
+    handed back without any schema and the RestoreFunc returned nil *)
+Theorem C14_handed_back_empty_mysql :
+  forall (sc : DevServer.scenario) (cur : option N),
+  let r := DevServer.run_scenario sc (DevServer.mkSrv [] cur) [] in
+  DevServer.r_ran r = true /\ DevServer.r_restored r = true /\ DevServer.sv_schemas (DevServer.r_srv r) = [] /\ DevServer.r_fs r = [].
+Proof. exact DevServerProofs.handed_back_realm. Qed.
+Print Assumptions C14_handed_back_empty_mysql.
+
+Theorem C14_accepted_realm_is_empty_mysql :
+  forall (srv : DevServer.server) (fs fs1 : list bool),
+  DevServer.snapshot_my srv fs = (DevServer.SnapOk DevServer.RRealm, fs1) -> DevServer.holds_content srv = false.
+Proof. exact DevServerProofs.accepted_realm_empty. Qed.
+Print Assumptions C14_accepted_realm_is_empty_mysql.
+
+(** Full statement for a connection bound to a schema -- "handed back as found
+    whatever the session does" -- is false of the faithful model: the
+    SchemaRestoreFunc only looks at the bound schema.  (1) a script (or
+    NormalizeRealm) that creates another schema leaves it behind, no error;
+    (2) a script that drops the bound schema: the restore fails (schema not
+    found) and nothing is recreated.  Findings C14-bound-foreign-schema,
+    C14-bound-schema-dropped. *)
+Definition ex_bound : DevServer.server := DevServer.mkSrv [DevServer.mkSch 1 []] (Some 1%N).
+Theorem C14_handed_back_empty_bound_mysql_refuted :
+  (exists body, let r := DevServer.run_sess body ex_bound [] in
+     DevServer.r_out r = DevServer.SOk /\ DevServer.r_restored r = true /\
+     DevServer.sv_schemas (DevServer.r_srv r) = [DevServer.mkSch 1 []; DevServer.mkSch 2 [1%N]]) /\
+  (exists rl, let r := DevServer.norm_realm rl ex_bound [] in
+     DevServer.r_out r = DevServer.SOk /\ DevServer.r_restored r = true /\
+     DevServer.sv_schemas (DevServer.r_srv r) = [DevServer.mkSch 1 []; DevServer.mkSch 2 [2%N]]) /\
+  (exists body, let r := DevServer.run_sess body ex_bound [] in
+     DevServer.r_out r = DevServer.SOk /\ DevServer.r_ran r = true /\ DevServer.r_restored r = false /\
+     DevServer.sv_schemas (DevServer.r_srv r) = []).
+Proof.
+  split; [|split].
+  - exists [DevServer.SCs 2 false; DevServer.SCt (Some 2%N) 1]. vm_compute. repeat split.
+  - exists [DevServer.mkSch 1 [1%N]; DevServer.mkSch 2 [2%N]]. vm_compute. repeat split.
+  - exists [DevServer.SDs 1]. vm_compute. repeat split.
+Qed.
+Print Assumptions C14_handed_back_empty_bound_mysql_refuted.
+
+Example C14_server_nonvacuous :
+  (* refused: realm connection, one empty schema; bound connection, a table in its schema.
+     accepted: bound connection with an empty schema next to a foreign schema with tables;
+     a script on a realm connection that creates a schema and a table, then fails: all dropped;
+     a fault in the restore's DROP: reported, schema left *)
+  DevServer.holds_content (DevServer.mkSrv [DevServer.mkSch 1 []] None) = true /\
+  DevServer.r_out (DevServer.run_sess [] (DevServer.mkSrv [DevServer.mkSch 1 []] None) []) = DevServer.SRefused /\
+  DevServer.r_out (DevServer.run_sess [] (DevServer.mkSrv [DevServer.mkSch 1 [3%N]] (Some 1%N)) []) = DevServer.SRefused /\
+  DevServer.holds_content (DevServer.mkSrv [DevServer.mkSch 1 []; DevServer.mkSch 2 [1%N]] (Some 1%N)) = false /\
+  DevServer.r_out (DevServer.run_sess [DevServer.SCt None 1] (DevServer.mkSrv [DevServer.mkSch 1 []; DevServer.mkSch 2 [1%N]] (Some 1%N)) []) = DevServer.SOk /\
+  DevServer.r_trace (DevServer.run_sess [DevServer.SCs 2 false; DevServer.SCt (Some 2%N) 1; DevServer.SBadS] (DevServer.mkSrv [] None) [])
+    = [DevServer.ECs 2; DevServer.ECt 2 1; DevServer.EDs 2] /\
+  DevServer.r_out (DevServer.run_sess [DevServer.SCs 2 false; DevServer.SCt (Some 2%N) 1; DevServer.SBadS] (DevServer.mkSrv [] None) []) = DevServer.SFail 2 /\
+  (let r := DevServer.run_sess [DevServer.SCs 2 false] (DevServer.mkSrv [] None) (DevServer.fault_stream [6] 10) in
+   DevServer.r_restored r = false /\ DevServer.r_ran r = true /\ DevServer.sv_schemas (DevServer.r_srv r) = [DevServer.mkSch 2 []]) /\
+  DevServer.snapshot_my (DevServer.mkSrv [] None) [] = (DevServer.SnapOk DevServer.RRealm, []).
+Proof. vm_compute. repeat split. Qed.
